@@ -8,14 +8,37 @@ From HT Require Import Common.Bytes C18.Model.
 Open Scope nat_scope.
 
 Record run := mkRun {
-  r_cfg : list svc;                 (* services enabled in this start *)
+  r_insts : list inst;              (* service instances configured in this start (kind, private-key option) *)
   r_token : bytes;                  (* "token" field of an event delivered to a configured channel *)
   r_ntok : N;                       (* number of distinct token values on the events of this start *)
   r_disk : disk;                    (* token file, token.tmp, kv items after the start *)
   r_pub : list (item * bytes);      (* public projection of each stored item (public key / certificate DER) *)
-  r_seen : list (item * bytes);     (* what a client was shown: SSH host key, TLS leaf certificate, agent public key *)
+  r_shown : list bytes;             (* per instance, in the order of r_insts: what a client of THAT instance was shown in a
+                                       real handshake (SSH host key, TLS leaf certificate, agent public key); [] = nothing *)
   r_bad : list item                 (* stored items the real libraries reject (parse, Validate, X509KeyPair with the stored key) *)
 }.
+
+(* services enabled: one load-or-generate call per instance *)
+Definition r_cfg (r : run) : list svc := map (fun i => kind_svc (i_kind i)) (r_insts r).
+
+(* the public side of the stored identity an instance of kind k is made from *)
+Definition stored_of (r : run) (k : ikind) : bytes :=
+  match kv_get (r_pub r) (shown_item k) with Some b => b | None => [] end.
+
+Fixpoint list_eqb {A} (e : A -> A -> bool) (a b : list A) : bool :=
+  match a, b with
+  | [], [] => true
+  | x :: a', y :: b' => e x y && list_eqb e a' b'
+  | _, _ => false
+  end.
+
+Definition has_opkey (i : inst) : bool :=
+  match i_kind i, i_opt i with KAuth, Some _ => true | _, _ => false end.
+
+(* (item, value shown) of the instances that carry no operator key *)
+Definition r_seen (r : run) : list (item * bytes) :=
+  flat_map (fun ib => if has_opkey (fst ib) then [] else [(shown_item (i_kind (fst ib)), snd ib)])
+           (combine (r_insts r) (r_shown r)).
 
 Record case := mkCase {
   c_id : N;
@@ -57,6 +80,8 @@ Fixpoint agrees (d : disk) (rs : list run) : bool :=
       && disk_eqb d' (r_disk r)
       && forallb (fun iv => obytes_eqb (kv_get (d_kv (r_disk r)) (fst iv)) (Some (snd iv)))
                  (id_items (ident f d (r_cfg r)))
+      (* every instance presents what the constructors' cells hold *)
+      && list_eqb eqb_bytes (presented (stored_of r) (r_insts r)) (r_shown r)
       (* a token the model generates is xid.New().String(): the observed one must have that shape *)
       && (match fst (token_step d (r_token r)) with [] => true | _ => token_wf (r_token r) end)
       && agrees d' rest
@@ -74,7 +99,8 @@ Definition SIG_TOKEN_CHANGED := 2%N.       (* the token differs between starts (
 Definition SIG_TOKEN_NOT_PERSISTED := 3%N. (* the token in use is not what the token file holds afterwards *)
 Definition SIG_ITEM_CHANGED := 4%N.        (* a stored or client-visible key/certificate changed or disappeared *)
 Definition SIG_ITEM_MALFORMED := 5%N.      (* a stored item is rejected by its library, or a certificate without/not matching its key *)
-Definition SIG_NOT_PRESENTED := 6%N.       (* an enabled service did not present the persisted identity to the client *)
+Definition SIG_NOT_PRESENTED := 6%N.       (* a service instance did not present the persisted identity to its client (or, given an
+                                              operator key, not that key; or somebody else presented the operator key) *)
 
 Definition svc_items (s : svc) : list item :=
   match s with
@@ -129,14 +155,15 @@ Definition kv_shape_ok (m : kv) (bad : list item) : bool :=
                                     end
                      end) all_items.
 
-(* every enabled service has its items stored and shows the client the stored identity *)
-Definition presented (r : run) : bool :=
+(* every enabled service has its items stored, and every instance shows its client the
+   stored identity - except an ssh-auth instance given an operator key, which shows that *)
+Definition presents_ok (r : run) : bool :=
   forallb (fun s =>
-    forallb (fun it => match kv_get (d_kv (r_disk r)) it with Some _ => true | None => false end) (svc_items s)
-    && match kv_get (r_seen r) (svc_shown s), kv_get (r_pub r) (svc_shown s) with
-       | Some a, Some b => eqb_bytes a b
-       | _, _ => false
-       end) (r_cfg r).
+    forallb (fun it => match kv_get (d_kv (r_disk r)) it with Some _ => true | None => false end) (svc_items s))
+    (r_cfg r)
+  && forallb (fun i => match kv_get (r_pub r) (shown_item (i_kind i)) with Some _ => true | None => false end) (r_insts r)
+  && forallb (fun b => match b with [] => false | _ => true end) (r_shown r)
+  && list_eqb eqb_bytes (map (presented_spec (stored_of r)) (r_insts r)) (r_shown r).
 
 Definition case_sigs (c : case) : list N :=
   let rs := c_runs c in
@@ -147,16 +174,20 @@ Definition case_sigs (c : case) : list N :=
       then [] else [SIG_ITEM_CHANGED])
   ++ (if kv_shape_ok (d_kv (c_disk0 c)) (c_bad0 c) && forallb (fun r => kv_shape_ok (d_kv (r_disk r)) (r_bad r)) rs
       then [] else [SIG_ITEM_MALFORMED])
-  ++ (if forallb presented rs then [] else [SIG_NOT_PRESENTED]).
+  ++ (if forallb presents_ok rs then [] else [SIG_NOT_PRESENTED]).
 
 Definition violations (cs : list case) : list (N * N) :=
   flat_map (fun c => map (fun s => (c_id c, s)) (case_sigs c)) cs.
 
 (* tags: 1 + 2*[token file present at first] + 4*[items present at first] + 8*[more than two starts]
-   + 16*[some start enabled a service]; never 0: every case is a restart history *)
+   + 16*[some start enabled a service] + 32*[some start has two instances sharing one stored identity]
+   + 64*[some start has an instance with an operator key]; never 0: every case is a restart history *)
 Definition tags (cs : list case) : list (N * N) :=
   map (fun c => (c_id c,
     1 + (match d_token (c_disk0 c) with Some _ => 2 | None => 0 end)
       + (match d_kv (c_disk0 c) with [] => 0 | _ => 4 end)
       + (if (2 <? length (c_runs c))%nat then 8 else 0)
-      + (if existsb (fun r => match r_cfg r with [] => false | _ => true end) (c_runs c) then 16 else 0))%N) cs.
+      + (if existsb (fun r => match r_cfg r with [] => false | _ => true end) (c_runs c) then 16 else 0)
+      + (if existsb (fun r => negb (length (nodup N.eq_dec (map (fun i => item_code (shown_item (i_kind i))) (r_insts r)))
+                                    =? length (r_insts r))%nat) (c_runs c) then 32 else 0)
+      + (if existsb (fun r => existsb has_opkey (r_insts r)) (c_runs c) then 64 else 0))%N) cs.
